@@ -539,16 +539,6 @@ def compare(case, impl, model):
     return True
 
 
-def _py_decode(piece):
-    d = dict.fromkeys(FIELDS)
-    for part in piece.split(","):
-        if "=" in part:
-            i, v = part.split("=", 1)
-            if i.isdigit() and int(i) < 5:
-                d[FIELDS[int(i)]] = urllib.parse.unquote(v)
-    return d
-
-
 def finding_key(case, impl, lean):
     if case["op"] == "eptid":
         calls = [tuple(c) for c in case["calls"]]
@@ -557,33 +547,15 @@ def finding_key(case, impl, lean):
             return KNOWN_EPTID
         return None
     if case["op"] == "hist":
+        # regression label for the defect repaired by cd87445c ("fixed" entries suppress nothing):
+        # persistent_nameid answers with an identifier whose format is not persistent
         why = lean.get("why") or ""
-        if not why.startswith("step ") or "frame=false" not in why:
-            return None
-        if any(x in why for x in ("rev=false", "distinct=false", "res=false", "sdb=false")):
-            return None
-        if not compare(case, impl, lean.get("model")):
+        if not why.startswith("step ") or "res=false" not in why:
             return None
         i = int(why.split(":")[0].split()[1])
         o = case["ops"][i]
-        if o["k"] != "manage" or o["m"] == "noop":
-            return None
-        # the store before step i, as the implementation reported it
-        db = {}
-        for st in impl["steps"][:i]:
-            for k, v in st["delta"]:
-                if v is None:
-                    db.pop(k, None)
-                else:
-                    db[k] = v
-        arg = impl["steps"][i].get("arg") or {}
-        owner = db.get(arg.get("text"))
-        if owner is None or owner not in db:
-            return None
-        tr = case["consts"]["transient"]
-        same = [d for d in map(_py_decode, [p for p in db[owner].split(" ") if p])
-                if d["fmt"] != tr and (d["spq"] or None) == (arg.get("spq") or None) and (d["nq"] or None) == (arg.get("nq") or None)]
-        if len(same) >= 2 and len({d["fmt"] for d in same}) >= 2:
+        r = impl["steps"][i]["res"]
+        if o["k"] == "persistent" and r.get("r") == "nid" and r["n"]["fmt"] != case["consts"]["persistent"]:
             return KNOWN_REORDER
         return None
     return None
@@ -602,8 +574,15 @@ def nontrivial(case, impl, lean):
 def shrink(case):
     if case["op"] == "hist":
         ops = case["ops"]
-        for i in range(len(ops) - 1, -1, -1):
-            # dropping step i: references to later steps shift down, references to i itself make the candidate invalid
+        n = len(ops)
+        # references only point backwards, so every prefix is a valid history
+        for L in sorted({n // 2, 3 * n // 4, n - 1}):
+            if 0 < L < n:
+                c = dict(case)
+                c["ops"] = ops[:L]
+                yield c
+        count = 0
+        for i in range(n - 1):  # the last step is the one that fails once the prefix is minimal
             if any(o.get("ref") == i for o in ops):
                 continue
             new = []
@@ -617,17 +596,21 @@ def shrink(case):
             c = dict(case)
             c["ops"] = new
             yield c
-        if len(case["users"]) > 1:
-            used = {o.get("u") for o in ops}
-            for u in case["users"]:
-                if u not in used:
-                    c = dict(case)
-                    c["users"] = [x for x in case["users"] if x != u]
-                    yield c
+            count += 1
+            if count >= 40:
+                break
+        used = {o.get("u") for o in ops}
+        for u in case["users"]:
+            if u not in used and len(case["users"]) > 1:
+                c = dict(case)
+                c["users"] = [x for x in case["users"] if x != u]
+                yield c
     elif case["op"] == "eptid":
         for i in range(len(case["calls"])):
             c = dict(case)
             c["calls"] = case["calls"][:i] + case["calls"][i + 1:]
+            used = {us + sp + case["secret"] for sp, us in c["calls"]}
+            c["md5"] = [m for m in case["md5"] if m[0] in used]
             yield c
 
 
